@@ -661,7 +661,10 @@ def targets(F):
                                                                        "parser::utils::", "parser::generated::",
                                                                        "parser::swift_parser::SwiftParser::extract_block",
                                                                        "parser::swift_parser::SwiftParser::find_matching_brace",
-                                                                       "parser::swift_parser::FieldConsumptionTracker::"))
+                                                                       "parser::swift_parser::FieldConsumptionTracker::",
+                                                                       "parser::swift_parser::find_field",
+                                                                       "parser::swift_parser::apply_field50",
+                                                                       "parser::sequence_parser::"))
         is_pred = outp == "bool" and b["name"] in ("has_reject_codes", "has_return_codes", "is_cover_message",
                                                    "is_stp_message", "is_stp_compliant") and \
             (p.startswith("swift_message::") or p.startswith("messages::"))
@@ -685,7 +688,7 @@ def extract_all(F):
 FILTERS = {
     "parser": re.compile(r"^parser::(message_parser|field_extractor|utils)::"),
     "blocks": re.compile(r"^parser::swift_parser::SwiftParser::|^parser::utils::extract_block4"),
-    "tokeniser": re.compile(r"^parser::generated::|FieldConsumptionTracker"),
+    "tokeniser": re.compile(r"^parser::generated::|FieldConsumptionTracker|^parser::sequence_parser::|^parser::swift_parser::(find_field|apply_field50)"),
     "predicates": re.compile(r"::(has_reject_codes|has_return_codes|is_cover_message|is_stp_message|is_stp_compliant)$"),
     "amount": re.compile(r"amount|decimal|Field(19|32|33|34|36|37|60|61|62|64|65|71F|71G|90)"),
     "date": re.compile(r"parse_date|parse_time|parse_datetime|date_format|time_format|date_string|Field(11|13|30|32|60|61|62|64|65)"),
